@@ -160,8 +160,10 @@ func vc06TermValue(tok lex.Token) (expr.Operator, any) {
 				return expr.Literal, n
 			}
 		}
-		f, _ := strconv.ParseFloat(v, 64)
-		return expr.Literal, f
+		if f, err := strconv.ParseFloat(v, 64); err == nil {
+			return expr.Literal, f
+		}
+		return expr.Literal, v // a numeral beyond float64 has no number to stand for
 	}
 	if vc06UnescapedWildcard(v) {
 		return expr.Wild, v
@@ -226,15 +228,15 @@ func vc06LeafCat(tok lex.Token, leaf *expr.Expression, field bool) string {
 // ---- the derivation checker ---------------------------------------------------------------------
 
 const (
-	vc06FEq        = 1 << iota // '=' stands where the grammar has ':'
-	vc06FCmp                   // field:>v with v not a single term
-	vc06FMixed                 // a range opened and closed by brackets of different kinds
-	vc06FAmount                // E~n / E^n with n not a bare number token
-	vc06FAmountVal             // the distance / power in the node is not the number typed
-	vc06FLeaf                  // a leaf does not carry the typed value of its token
-	vc06FEmpty                 // empty groups () were silently dropped
-	vc06FParenField            // the field name of field:E stands inside parentheses
-	vc06NFlags     = 8
+	vc06FEq         = 1 << iota // '=' stands where the grammar has ':'
+	vc06FCmp                    // field:>v with v not a single term
+	vc06FMixed                  // a range opened and closed by brackets of different kinds
+	vc06FAmount                 // E~n / E^n with n not a bare number token
+	vc06FAmountVal              // the distance / power in the node is not the number typed
+	vc06FLeaf                   // a leaf does not carry the typed value of its token
+	vc06FEmpty                  // empty groups () were silently dropped
+	vc06FParenField             // the field name of field:E stands inside parentheses
+	vc06NFlags      = 8
 )
 
 var vc06FlagCat = [vc06NFlags]string{
@@ -663,6 +665,10 @@ func vc06Derive(toks []lex.Token, e *expr.Expression, df string) []string {
 				continue
 			}
 			if 1<<b == vc06FLeaf {
+				if vc06Permuted(tk, r.w) {
+					cats = append(cats, "terms-reordered")
+					continue
+				}
 				seen := map[string]bool{}
 				for _, p := range r.w {
 					lc := vc06LeafCat(tk[p.tok], p.leaf, p.field)
@@ -701,7 +707,7 @@ func vc06Derive(toks []lex.Token, e *expr.Expression, df string) []string {
 		return []string{"term-invented"}
 	case len(leaves) < terms-amounts:
 		return []string{"term-token-dropped"}
-	case ops[expr.Not] < tokOps[lex.TNot] || ops[expr.Must] < tokOps[lex.TPlus] || ops[expr.MustNot] < tokOps[lex.TMinus] ||
+	case ops[expr.And] < tokOps[lex.TAnd] || ops[expr.Not] < tokOps[lex.TNot] || ops[expr.Must] < tokOps[lex.TPlus] || ops[expr.MustNot] < tokOps[lex.TMinus] ||
 		ops[expr.Fuzzy] < tokOps[lex.TTilde] || ops[expr.Boost] < tokOps[lex.TCarrot] || ops[expr.Or] < tokOps[lex.TOr]-vc06ListOrs(e):
 		return []string{"operator-token-dropped"}
 	case ops[expr.Not] > tokOps[lex.TNot] || ops[expr.Must] > tokOps[lex.TPlus] || ops[expr.MustNot] > tokOps[lex.TMinus] ||
@@ -709,6 +715,29 @@ func vc06Derive(toks []lex.Token, e *expr.Expression, df string) []string {
 		return []string{"operator-invented"}
 	}
 	return []string{"no-derivation"}
+}
+
+// vc06Permuted: the leaves that do not match their tokens carry exactly the typed
+// values of those tokens, in another order.
+func vc06Permuted(toks []lex.Token, w []vc06Pair) bool {
+	if len(w) < 2 {
+		return false
+	}
+	used := make([]bool, len(w))
+	for _, p := range w {
+		found := false
+		for k, q := range w {
+			op, val := vc06TermValue(toks[q.tok])
+			if !used[k] && vc06ValEq(p.leaf.Left, val) && (p.field || q.field || p.leaf.Op == op) {
+				used[k], found = true, true
+				break
+			}
+		}
+		if !found {
+			return false
+		}
+	}
+	return true
 }
 
 // vc06ListOrs: OR tokens legitimately absorbed by value lists (k values absorb k-1).
@@ -775,14 +804,22 @@ func vc06Tokens(in string) (toks []lex.Token, ok bool, pan string) {
 // ---- statistics -----------------------------------------------------------------------------------
 
 type vc06Fail struct {
+	ncat  int // number of deviations the input shows at once (single-cause witnesses first)
 	ntok  int
+	rnd   bool // found by random sampling (canonical enumerated inputs are preferred as witnesses)
 	input string
 	msg   string
 }
 
 func (a vc06Fail) less(b vc06Fail) bool {
+	if a.ncat != b.ncat {
+		return a.ncat < b.ncat
+	}
 	if a.ntok != b.ntok {
 		return a.ntok < b.ntok
+	}
+	if a.rnd != b.rnd {
+		return !a.rnd
 	}
 	if len(a.input) != len(b.input) {
 		return len(a.input) < len(b.input)
@@ -795,6 +832,7 @@ func (a vc06Fail) less(b vc06Fail) bool {
 
 type vc06Stats struct {
 	evals, accepted int64
+	rnd             bool
 	byCat           map[string]int64
 	best            map[string][]vc06Fail
 }
@@ -819,8 +857,12 @@ func (s *vc06Stats) keep(cat string, f vc06Fail) {
 }
 
 func (s *vc06Stats) fail(cat string, ntok int, input, msg string) {
+	s.failN(cat, 1, ntok, input, msg)
+}
+
+func (s *vc06Stats) failN(cat string, ncat, ntok int, input, msg string) {
 	s.byCat[cat]++
-	s.keep(cat, vc06Fail{ntok, input, msg})
+	s.keep(cat, vc06Fail{ncat, ntok, s.rnd, input, msg})
 }
 
 func (s *vc06Stats) merge(o *vc06Stats) {
@@ -886,12 +928,13 @@ func vc06Check(st *vc06Stats, in string, want []vc06Sym) {
 				fmt.Sprintf("[accepted-despite-lexical-error] %s : the lexer reports an error after %d tokens, expected rejection, Parse (%s) returned %s", q, len(toks), o.cfg, vc06Show(o.e)))
 			continue
 		}
-		for _, cat := range vc06Derive(toks, o.e, o.df) {
+		cats := vc06Derive(toks, o.e, o.df)
+		for _, cat := range cats {
 			why := vc06Why[cat]
 			if why == "" {
 				why = "no derivation of the tokens in the documented grammar yields this tree"
 			}
-			st.fail(cat, len(toks), in,
+			st.failN(cat, len(cats), len(toks), in,
 				fmt.Sprintf("[%s] %s : expected the tree to be a derivation of the %d tokens %v in the documented grammar (%s); Parse (%s) returned %s", cat, q, len(toks), toks, why, o.cfg, vc06Show(o.e)))
 		}
 	}
@@ -914,6 +957,7 @@ var vc06Why = map[string]string{
 	"word-typed-as-number":                  "a word that is not a decimal numeral is a string leaf; the tree holds a number",
 	"escaped-wildcard-typed-as-pattern":     "a word whose * and ? are all escaped is a plain string; the tree holds a wildcard leaf / the raw escaped text",
 	"escaped-backslash-dropped":             "an escaped backslash stands for a backslash; the leaf lost it",
+	"terms-reordered":                       "the leaves carry the values of the term tokens in another order",
 	"term-invented":                         "the tree has more leaves than the input has term tokens",
 	"term-token-dropped":                    "the input has term tokens that are no leaf of the tree",
 	"operator-token-dropped":                "the input has operator tokens that no node consumes",
@@ -1004,6 +1048,7 @@ var vc06Templates = [][]string{
 	{"a", ":", "{", "7", "TO", "b", "}"},
 	{"a", ":", "(", "b", "OR", "7", ")"},
 	{"a", ":", ">", "(", "b", "7", ")"},
+	{"a", ":", ">", "b", ":", "7"},
 	{"(", "(", ")", "NOT", "a", ")"},
 	{"a", ":", "[", "b", ":", "7", "TO", "7", "]"},
 	{"NOT", "a", ":", "b", "~", "7", "^", "7"},
@@ -1224,6 +1269,7 @@ func vc06Random(seed int64, count int, bounds vc06Bounds, total *vc06Stats, samp
 			defer wg.Done()
 			g := &vc06Gen{rand.New(rand.NewSource(seed*1000003 + int64(w)))}
 			st := vc06NewStats()
+			st.rnd = true
 			seen := map[uint64]string{}
 			for k := 0; k < per; k++ {
 				in := g.input(all)
@@ -1266,6 +1312,66 @@ func vc06Random(seed int64, count int, bounds vc06Bounds, total *vc06Stats, samp
 	return len(union)
 }
 
+// ---- self-test of the oracle ----------------------------------------------------------------------
+
+// vc06SelfTest feeds the checker hand-built (input, tree) pairs: trees that are the
+// derivation must pass, trees that drop / reorder / invent / retype content must be
+// flagged with the expected category.  Returns the list of discrepancies.
+func vc06SelfTest() (bad []string) {
+	lit := func(v any) *expr.Expression { return expr.Lit(v) }
+	cases := []struct {
+		in   string
+		df   string
+		tree *expr.Expression
+		want string // "" = derivation
+	}{
+		{"a AND b", "", expr.AND(lit("a"), lit("b")), ""},
+		{"a b", "", expr.AND(lit("a"), lit("b")), ""},
+		{"( a ) OR NOT b", "", expr.OR(lit("a"), expr.NOT(lit("b"))), ""},
+		{"a : [ 7 TO * ]", "", expr.Rang(lit("a"), lit(7), expr.WILD("*"), true), ""},
+		{"a : ( b OR 7 )", "", expr.IN(lit("a"), expr.LIST([]*expr.Expression{lit("b"), lit(7)})), ""},
+		{"a : > = 1.5", "", expr.GREATEREQ(lit("a"), lit(1.5)), ""},
+		{"+ a ~ 2 - b ^", "", expr.AND(expr.MUST(expr.FUZZY(lit("a"), 2)), expr.MUSTNOT(expr.BOOST(lit("b")))), ""},
+		{"a b", "d", expr.AND(expr.Eq(lit("d"), lit("a")), expr.Eq(lit("d"), lit("b"))), ""},
+		{"a : w*", "", expr.Eq(lit("a"), expr.WILD("w*")), ""},
+		{"a b", "", expr.AND(lit("b"), lit("a")), "terms-reordered"},
+		{"a AND b", "", expr.OR(lit("a"), lit("b")), "operator-token-dropped"},
+		{"a OR b", "", expr.AND(lit("a"), lit("b")), "operator-token-dropped"},
+		{"NOT a", "", lit("a"), "operator-token-dropped"},
+		{"a", "", expr.NOT(lit("a")), "operator-invented"},
+		{"a b", "", lit("a"), "term-token-dropped"},
+		{"a", "", expr.AND(lit("a"), lit("a")), "term-invented"},
+		{"a", "", lit("b"), "leaf-typed-value"},
+		{"7", "", lit("7"), "leaf-typed-value"},
+		{`"7"`, "", lit(7), "quoted-string-retyped-as-number"},
+		{"a", "", expr.Eq(lit("d"), lit("a")), "term-invented"}, // default-field wrapper without the option
+		{"( ( ) NOT a )", "", expr.NOT(lit("a")), "empty-group-dropped"},
+		{"a : [ b : c TO 5 ]", "", expr.Rang(lit("a"), expr.Eq(lit("b"), lit("c")), lit(5), true), "no-derivation"},
+		{"a : [ 1 TO 5 }", "", expr.Rang(lit("a"), lit(1), lit(5), false), "range-mixed-brackets"},
+		{"a : [ 1 TO 5 ]", "", expr.Rang(lit("a"), lit(1), lit(5), false), "no-derivation"},
+		{"a ~ 2", "", expr.FUZZY(lit("a"), 3), "fuzzy-boost-amount-value"},
+		{"a ~ ( 2 )", "", expr.FUZZY(lit("a"), 2), "fuzzy-boost-amount-not-a-number-token"},
+		{"a = b", "", expr.Eq(lit("a"), lit("b")), "equals-sign-as-field-operator"},
+		{"a : > ( b c )", "", expr.GREATER(lit("a"), expr.AND(lit("b"), lit("c"))), "comparison-value-not-a-term"},
+		{"( a ) : b", "", expr.Eq(lit("a"), lit("b")), "parenthesized-field-name"},
+		{"( a", "", lit("a"), "no-derivation"},
+		{"a )", "", lit("a"), "no-derivation"},
+		{"a : ( b OR c )", "", expr.IN(lit("a"), expr.LIST([]*expr.Expression{lit("c"), lit("b")})), "terms-reordered"},
+	}
+	for _, c := range cases {
+		toks, ok, _ := vc06Tokens(c.in)
+		if !ok {
+			bad = append(bad, fmt.Sprintf("%q does not lex", c.in))
+			continue
+		}
+		got := strings.Join(vc06Derive(toks, c.tree, c.df), "+")
+		if got != c.want {
+			bad = append(bad, fmt.Sprintf("%q with tree %s: checker says %q, expected %q", c.in, vc06Show(c.tree), got, c.want))
+		}
+	}
+	return bad
+}
+
 // ---- entry point ------------------------------------------------------------------------------------
 
 type vc06Report struct {
@@ -1306,6 +1412,9 @@ func TestVerifStandin_C06(t *testing.T) {
 	extraLen = vc06EnvInt("VERIF_C06_XLEN", extraLen)
 	randomN = vc06EnvInt("VERIF_C06_RANDOM", randomN)
 
+	for _, b := range vc06SelfTest() {
+		t.Errorf("C06 harness self-test: %s", b)
+	}
 	total := vc06NewStats()
 	var samples []string
 	var bound string
